@@ -81,7 +81,13 @@ type AtStmt struct {
 	Used      bool
 }
 
+type macroDef struct {
+	params []string
+	body   string
+}
+
 type ContractSet struct {
+	Macros map[string]macroDef
 	PkgInv map[string][]*Clause // package path -> invariants of package-level state assumed at entry
 	ByKey map[string]*Contract
 	Order []string
@@ -89,7 +95,7 @@ type ContractSet struct {
 }
 
 func NewContractSet() *ContractSet {
-	return &ContractSet{ByKey: map[string]*Contract{}, PkgInv: map[string][]*Clause{}}
+	return &ContractSet{ByKey: map[string]*Contract{}, PkgInv: map[string][]*Clause{}, Macros: map[string]macroDef{}}
 }
 
 func splitTopLevel(s string, sep rune) []string {
@@ -179,6 +185,7 @@ func (cs *ContractSet) ParseFile(path string, pkgPath string) {
 				c.Props = strings.Split(text[1:i], ",")
 				text = strings.TrimSpace(text[i+1:])
 			}
+			text = cs.expandMacros(text, 0)
 			if i := strings.LastIndex(text, " using "); i >= 0 {
 				for _, u := range strings.Split(text[i+7:], ",") {
 					c.Using = append(c.Using, strings.TrimSpace(u))
@@ -205,6 +212,24 @@ func (cs *ContractSet) ParseFile(path string, pkgPath string) {
 			}
 			cs.ByKey[key] = cur
 			cs.Order = append(cs.Order, key)
+			continue
+		}
+		if kw == "macro" {
+			// macro name(a, b) = body
+			eq := strings.Index(rest, "=")
+			lp := strings.Index(rest, "(")
+			rp := strings.Index(rest, ")")
+			if eq < 0 || lp < 0 || rp < lp || rp > eq {
+				fail("macro needs name(params) = body")
+				continue
+			}
+			var ps []string
+			for _, p := range strings.Split(rest[lp+1:rp], ",") {
+				if strings.TrimSpace(p) != "" {
+					ps = append(ps, strings.TrimSpace(p))
+				}
+			}
+			cs.Macros[strings.TrimSpace(rest[:lp])] = macroDef{ps, strings.TrimSpace(rest[eq+1:])}
 			continue
 		}
 		if kw == "pkginv" {
@@ -413,4 +438,69 @@ func (cs *ContractSet) ParseDepsDir(dir string) {
 	for _, f := range files {
 		cs.ParseFile(f, "")
 	}
+}
+
+func isIdentByte(c byte) bool {
+	return c == '_' || c == '$' || (c >= 'a' && c <= 'z') || (c >= 'A' && c <= 'Z') || (c >= '0' && c <= '9')
+}
+
+// expandMacros textually expands macro applications name(args).
+func (cs *ContractSet) expandMacros(text string, depth int) string {
+	if depth > 8 || len(cs.Macros) == 0 {
+		return text
+	}
+	for name, m := range cs.Macros {
+		for start := 0; ; {
+			i := strings.Index(text[start:], name+"(")
+			if i < 0 {
+				break
+			}
+			i += start
+			if i > 0 && isIdentByte(text[i-1]) {
+				start = i + 1
+				continue
+			}
+			// balanced argument list
+			j := i + len(name) + 1
+			d := 1
+			for j < len(text) && d > 0 {
+				if text[j] == '(' {
+					d++
+				} else if text[j] == ')' {
+					d--
+				}
+				j++
+			}
+			args := splitTopLevel(text[i+len(name)+1:j-1], ',')
+			body := m.body
+			if len(args) == len(m.params) {
+				// substitute whole identifiers
+				var b strings.Builder
+				for k := 0; k < len(body); {
+					if isIdentByte(body[k]) && (k == 0 || !isIdentByte(body[k-1])) {
+						e := k
+						for e < len(body) && isIdentByte(body[e]) {
+							e++
+						}
+						word := body[k:e]
+						rep := word
+						for pi, p := range m.params {
+							if p == word {
+								rep = "(" + args[pi] + ")"
+							}
+						}
+						b.WriteString(rep)
+						k = e
+						continue
+					}
+					b.WriteByte(body[k])
+					k++
+				}
+				body = b.String()
+			}
+			text = text[:i] + "(" + body + ")" + text[j:]
+			start = i + 1
+		}
+	}
+	return text
 }
